@@ -248,7 +248,8 @@ def _expression(expr):
         if expr.PLUS():
             return np.sum([_expression(a), _expression(b)], axis=0)
         if expr.MINUS():
-            return np.sum([_expression(a), -_expression(b)], axis=0)
+            # subtract directly: negating the smallest 64-bit integer first leaves the integers
+            return np.subtract(_expression(a), _expression(b))
 
     if isinstance(expr, blackbirdParser.MulLabelContext):
         a, b = expr.expression()
